@@ -26,6 +26,7 @@
 
 // local sources
 #include "dbgroup/thread/common.hpp"
+#include "dbgroup/verif/hooks.hpp"
 
 namespace dbgroup::thread
 {
@@ -69,11 +70,14 @@ IDManager::GetHeartBeater()  //
   thread_local HeartBeater hb{};
   if (!hb.HasID()) {
     auto id = std::hash<std::thread::id>{}(std::this_thread::get_id()) % kMaxThreadNum;
+    id = DBGROUP_VERIF_PROBE_START(id, kMaxThreadNum);
     do {
+      DBGROUP_VERIF_POINT(kIdProbe, &_id_vec[id]);
       if (++id >= kMaxThreadNum) {
         id = 0;
       }
     } while (_id_vec[id].load(kRelaxed) || _id_vec[id].exchange(true, kRelaxed));
+    DBGROUP_VERIF_POINT(kIdClaimed, &_id_vec[id]);
     hb.SetID(id);
   }
   return hb;
@@ -85,7 +89,9 @@ IDManager::GetHeartBeater()  //
 
 IDManager::HeartBeater::~HeartBeater()
 {  //
+  DBGROUP_VERIF_POINT(kIdExitBegin, &_id_vec[*id_]);
   _id_vec[*id_].store(false, kRelaxed);
+  DBGROUP_VERIF_POINT(kIdExitEnd, this);
 }
 
 auto
